@@ -113,7 +113,15 @@ def main(argv=None):
                         pass
                 pending = set()
     finally:
-        ex.shutdown(wait=False, cancel_futures=True)
+        if all(f.done() for f in futs):
+            ex.shutdown(wait=True)
+        else:
+            for proc in list(getattr(ex, "_processes", {}).values()):
+                try:
+                    proc.terminate()
+                except Exception:
+                    pass
+            ex.shutdown(wait=False, cancel_futures=True)
     for u in units:
         results.setdefault(u.name, skipped(u.name))
     wall = time.time() - t0
@@ -228,4 +236,7 @@ def do_replay(mod, pid, path):
 
 
 if __name__ == "__main__":
-    sys.exit(main())
+    _code = main()
+    sys.stdout.flush()
+    sys.stderr.flush()
+    os._exit(_code or 0)      # (skips the executor's exit handlers, which can trip over pipes of terminated workers)
